@@ -60,7 +60,7 @@ def kstr(k):
 SCO_POOL_TYPES = ['ipv4-addr', 'domain-name', 'file', 'url', 'mutex', 'autonomous-system', 'user-account', 'software']
 
 
-def gen_pool(rng, index, n_ids, max_versions, kinds, digits_mixed=False, versions=('2.0', '2.1')):
+def gen_pool(rng, index, n_ids, max_versions, kinds, digits_mixed=False, versions=('2.0', '2.1'), upper_ids=0.0):
     """Describe a pool of objects.  `kinds` = weighted list of entry kinds."""
     pool = []
     for n in range(n_ids):
@@ -114,6 +114,8 @@ def gen_pool(rng, index, n_ids, max_versions, kinds, digits_mixed=False, version
         e['versions'] = mods
         if kind in ('sdo', 'unreg', 'custom') and rng.random() < 0.12:
             e['big'] = rng.choice([9000, 20000, 70000])      # serialises to more than one write buffer
+        if upper_ids and kind in ('sdo', 'identity', 'unreg', 'custom') and rng.random() < upper_ids:
+            e['id_case'] = rng.choice(['upper', 'upper', 'mixed'])
         pool.append(e)
     return pool
 
@@ -124,9 +126,10 @@ def content(pool, k, j):
     kind, ver = e['kind'], e['ver']
     if kind in ('sdo', 'identity'):
         d = C.build(ver, e['type'], e['id_n'], e['created_us'], e['versions'][j], e.get('rich', ()), e.get('common', ()))
+        d['id'] = eid(e)
         d['labels'] = list(d.get('labels', [])) + ['v%d' % j]
         if 'creator' in e:
-            d['created_by_ref'] = C.mkid('identity', pool[e['creator']]['id_n'])
+            d['created_by_ref'] = eid(pool[e['creator']])
         if kind == 'identity':
             d['name'] = 'identity %d v%d' % (e['id_n'], j)
         if e.get('big'):
@@ -135,6 +138,7 @@ def content(pool, k, j):
         return d
     if kind == 'rel':
         d = C.build(ver, 'relationship', e['id_n'], e['created_us'], e['versions'][j])
+        d['id'] = eid(e)
         d['relationship_type'] = e['rtype']
         d['source_ref'] = pool_id(pool, e['src'])
         d['target_ref'] = pool_id(pool, e['dst'])
@@ -143,29 +147,29 @@ def content(pool, k, j):
             d['source_ref'], d['target_ref'] = d['target_ref'], d['source_ref']
         d['labels'] = ['v%d' % j]
         if 'creator' in e:
-            d['created_by_ref'] = C.mkid('identity', pool[e['creator']]['id_n'])
+            d['created_by_ref'] = eid(pool[e['creator']])
         return d
     if kind == 'sco':
         minimal, rich = C.SCO21[e['type']][:2]
-        d = {'type': e['type'], 'spec_version': '2.1', 'id': C.mkid(e['type'], e['id_n'])}
+        d = {'type': e['type'], 'spec_version': '2.1', 'id': eid(e)}
         d.update(C._copy(minimal))
         if e.get('rich'):
             d.update(C._copy(rich))
         return d
     if kind == 'marking':
         d = dict(C.MARKING_STATEMENT_21 if ver == '2.1' else C.MARKING_STATEMENT_20)
-        d['id'] = C.mkid('marking-definition', e['id_n'])
+        d['id'] = eid(e)
         d['created'] = tsparse.fmt(tsparse.trunc_ms(e['created_us']), digits=3)
         d['definition'] = {'statement': 'Copyright %d' % e['id_n']}
         return d
     if kind == 'custom':
-        d = {'type': 'x-sim-widget', 'id': C.mkid('x-sim-widget', e['id_n']), 'name': 'widget v%d' % j, 'size': j}
+        d = {'type': 'x-sim-widget', 'id': eid(e), 'name': 'widget v%d' % j, 'size': j}
         if e.get('big'):
             d['labels'] = ['W%d' % i + 'W' * 9000 for i in range(1 + e['big'] // 9000)]
         _stamp(d, e, j, 3 if ver == '2.0' else None)
         return d
     if kind == 'unreg':
-        d = {'type': 'x-unreg-thing', 'id': C.mkid('x-unreg-thing', e['id_n']), 'name': 'thing v%d' % j,
+        d = {'type': 'x-unreg-thing', 'id': eid(e), 'name': 'thing v%d' % j,
              'x_list': [1, 2, {'a': 'b'}] + ['U%d' % i + 'U' * 9000 for i in range((e.get('big', 0) + 8999) // 9000)]}
         if e['versions']:
             _stamp(d, e, j, e.get('digits', 3))
@@ -195,9 +199,24 @@ def _stamp(d, e, j, digits):
         d['modified'] = tsparse.fmt(m, digits=6)
 
 
+def recase(sid, case):
+    """The same identifier with its UUID spelled in upper / mixed case hexadecimal (legal: UUIDs are case-insensitive on
+    input and the library keeps and files identifiers as given)."""
+    if not case or '--' not in sid:
+        return sid
+    t, u = sid.split('--', 1)
+    if case == 'upper':
+        return t + '--' + u.upper()
+    return t + '--' + ''.join(ch.upper() if i % 2 else ch for i, ch in enumerate(u))
+
+
+def eid(e):
+    return recase(C.mkid(e['type'], e['id_n']), e.get('id_case'))
+
+
 def pool_id(pool, k):
     e = pool[k % len(pool)]
-    return C.mkid(e['type'], e['id_n'])
+    return eid(e)
 
 
 def n_versions(e):
